@@ -116,6 +116,9 @@ IDENTITY_EXTRAS = [
         {'build': ['make exec-build'], 'path': rng.choice(['.', 'exec-dir', '/opt/vm', '~/vm'])}),
     lambda rng, cfg: [su.update({'build': ['make shared-build'], 'location': 'shared-dir'})
                       for su in cfg['benchmark_suites'].values()],
+    lambda rng, cfg: cfg['runs'].update({'invocations': rng.choice(['2!', '3', 2]), 'warmup': rng.choice(['1!', '1', 1])}),
+    lambda rng, cfg: cfg['executors'][rng.choice(sorted(cfg['executors']))].update(
+        {'invocations': rng.choice(['2!', '2', 3]), 'iterations': rng.choice(['3!', '2', 2])}),
     lambda rng, cfg: cfg['runs'].update({'max_invocation_time': 60, 'min_iteration_time': 0,
                                          'retries_after_failure': 2}),
     lambda rng, cfg: cfg['executors'][rng.choice(sorted(cfg['executors']))].update(
